@@ -1134,6 +1134,8 @@ M.contract(P_PR + ':_parse_rel_option_type', params=dict(options=OPTIONS_CONF, s
                or named_relativity(source.head.string) not in options.accepted_options,
                'ensures': lambda source, old: source.pos == old}},
            ensures={
+               # at call sites: the callee's effect on the token stream (contracts do not havoc the state of arguments)
+               'effect: the option is consumed': (lambda source: source.consume(), 'effect'),
                'the named relativity, which is accepted': lambda options, source, result, old:
                result is named_relativity(token_at(source, old).string) and result in options.accepted_options,
                'option consumed': lambda source, old: source.pos == old + 1,
